@@ -53,3 +53,58 @@ Section Inv.
   Theorem generic_visit_inv n sib ps st : P st -> P (generic_visit E n sib ps st).
   Proof. apply (proj1 (generic_visit_Q n)). Qed.
 End Inv.
+
+(* Two runs in lock-step: a relation preserved by visit_one on both sides is preserved by the traversal. *)
+Section Rel.
+  Variables E1 E2 : env.
+  Variable R : vstate -> vstate -> Prop.
+  Hypothesis Hone : forall n ps sib s1 s2, R s1 s2 -> R (visit_one E1 n ps sib s1) (visit_one E2 n ps sib s2).
+
+  Let P' (n : node) : Prop :=
+    forall sib ps s1 s2, R s1 s2 -> R (generic_visit E1 n sib ps s1) (generic_visit E2 n sib ps s2).
+  Let Q (n : node) : Prop := P' n /\ (forall l, n = NList l -> Forall P' l).
+
+  Definition goi_items (E : env) (ps : list (node * node)) :=
+    fix goi (is : list node) (st : vstate) : vstate :=
+      match is with
+      | [] => st
+      | i :: is' =>
+          let sib := match is' with s :: _ => s | [] => NNone end in
+          goi is' (match i with
+                   | Node _ _ _ => generic_visit E i sib ps (visit_one E i ps sib st)
+                   | _ => st
+                   end)
+      end.
+
+  Lemma items_rel its ps :
+    Forall P' its -> forall s1 s2, R s1 s2 -> R (goi_items E1 ps its s1) (goi_items E2 ps its s2).
+  Proof.
+    induction 1 as [|i is Hi His IH]; intros s1 s2 Hs; [exact Hs|].
+    simpl. apply IH. destruct i; try exact Hs.
+    apply Hi. apply Hone. exact Hs.
+  Qed.
+
+  Lemma generic_visit_relQ : forall n, Q n.
+  Proof.
+    induction n as [c p fs IHfs | l IHl | k | s | z | ] using node_ind'; unfold Q, P'.
+    - split; [|intros l H; discriminate].
+      intros sib ps s1 s2 Hs. simpl.
+      set (ps' := (Node c p fs, sib) :: ps). clearbody ps'.
+      revert s1 s2 Hs. induction fs as [|[k v] t IHt]; intros s1 s2 Hs; [exact Hs|].
+      inversion IHfs as [|? ? Hv Ht]; subst. simpl in Hv. destruct Hv as [Hv1 Hv2].
+      apply IHt; [exact Ht|].
+      destruct v as [c' p' fs' | its | | | | ]; try exact Hs.
+      + apply Hv1. apply Hone. exact Hs.
+      + apply (items_rel its ps'); [apply Hv2; reflexivity | exact Hs].
+    - split; [intros sib ps s1 s2 Hs; exact Hs|].
+      intros l' H; inversion H; subst. eapply Forall_impl; [|exact IHl]. intros a [Ha _]. exact Ha.
+    - split; [intros sib ps s1 s2 Hs; exact Hs | intros l H; discriminate].
+    - split; [intros sib ps s1 s2 Hs; exact Hs | intros l H; discriminate].
+    - split; [intros sib ps s1 s2 Hs; exact Hs | intros l H; discriminate].
+    - split; [intros sib ps s1 s2 Hs; exact Hs | intros l H; discriminate].
+  Qed.
+
+  Theorem generic_visit_rel n sib ps s1 s2 :
+    R s1 s2 -> R (generic_visit E1 n sib ps s1) (generic_visit E2 n sib ps s2).
+  Proof. apply (proj1 (generic_visit_relQ n)). Qed.
+End Rel.
